@@ -380,6 +380,7 @@ pub fn def() -> PropDef {
         needs_pairing: false,
         subs: vec![
             Box::new(crate::engine::EnumSub { name: "long-history", rule: super::longhist::RULE, run: run_long_history, replay: super::longhist::replay, exhaustive: false }),
+            Box::new(crate::engine::EnumSub { name: "two-input-bursts", rule: super::longhist::BURST_RULE, run: run_two_input_bursts, replay: super::longhist::replay_burst, exhaustive: false }),
             Box::new(Sub { name: "expand-message", rule: "bytes equal the RFC; requests beyond 255 blocks abort", quick: 60_000, thorough: 250_000, strategy: || boxed(expand_case_strategy()), check: check_expand }),
             Box::new(Sub { name: "related-requests", rule: "a request followed back to back by 1..4 related requests (other tag, other message, other length, other expander, same again), each compared with the model; out-of-domain requests (tags beyond 255 bytes) interleaved, outcome ignored", quick: 30_000, thorough: 300_000, strategy: || boxed(expand_seq_strategy()), check: check_expand_seq }),
             Box::new(Sub { name: "block-reduction", rule: "from_okm / from_ro == OS2IP(block) mod p for Fq (64), Fr (48), Fq2 (2 x 64, real first)", quick: 200_000, thorough: 1_000_000, strategy: || boxed(okm_strategy()), check: check_okm }),
